@@ -711,6 +711,18 @@ Definition to_lines (attrs : list attr) (c : list N) : res (list lattr) :=
 Definition covers (l : list attr) (p : N) (au : list N) (ts : N) : Prop :=
   exists a, In a l /\ a_author a = au /\ a_ts a = ts /\ a_start a <= p /\ p < a_end a.
 
+(* number of Delete / Insert segments in a prefix of the script = deletion_idx / insertion_idx *)
+Fixpoint ndel (segs : list seg) : N :=
+  match segs with [] => 0 | (DDel, _) :: t => 1 + ndel t | _ :: t => ndel t end.
+Fixpoint nins (segs : list seg) : N :=
+  match segs with [] => 0 | (DIns, _) :: t => 1 + nins t | _ :: t => nins t end.
+
+(* offset k of insertion number i lies in the target range of some move mapping *)
+Definition in_target (ms : list mv) (i k : N) : bool :=
+  existsb (fun r => (fst r <=? k) && (k <? snd r)) (ranges_for_ins ms i).
+Definition has_targets (ms : list mv) (i : N) : bool :=
+  match ranges_for_ins ms i with [] => false | _ :: _ => true end.
+
 (* the (line, author) pairs of the AI lines of a line-attribution list *)
 Fixpoint span (a : N) (n : nat) : list N :=
   match n with O => [] | S m => a :: span (a + 1) m end.
